@@ -24,10 +24,19 @@ type LiveCase struct {
 	Fault       string `json:"outage_fault"`
 	Yield       bool   `json:"yield_in_datastore"`
 	Tight       int    `json:"tight_attempts_after_heal"`
+	// LatencyMs (cycled over the outage cycles; 0 = answers at once): after the outage of that cycle the DA layer is
+	// busy: it accepts every submission but confirms it only this many milliseconds (= configured DA block times) after
+	// it was sent. The double honours the caller's context while it waits (a caller that gives up gets its context's
+	// error and nothing is stored).
+	LatencyMs []int `json:"busy_da_confirmation_latency_ms,omitempty"`
 }
 
 func (c LiveCase) key() string {
-	return fmt.Sprintf("live l%d %s c%d %v %s y%v t%d", c.Limit, c.Pattern, c.Cycles, c.OutageCalls, c.Fault, c.Yield, c.Tight)
+	k := fmt.Sprintf("live l%d %s c%d %v %s y%v t%d", c.Limit, c.Pattern, c.Cycles, c.OutageCalls, c.Fault, c.Yield, c.Tight)
+	if len(c.LatencyMs) > 0 {
+		k += fmt.Sprintf(" lat%v", c.LatencyMs)
+	}
+	return k
 }
 
 // after the DA layer is healthy again production is attempted at least liveAttempts times and for at least liveWait
@@ -103,6 +112,7 @@ func runLive(r *vk.Run, c LiveCase) {
 		return true
 	}
 	for cyc := 0; cyc < c.Cycles && len(viol) == 0; cyc++ {
+		da.ConfirmLatency.Store(0)
 		da.SetDefaultSubmit(c.Fault)
 		calls0 := da.SubmitCalls()
 		// fill up to the limit
@@ -122,6 +132,14 @@ func runLive(r *vk.Run, c LiveCase) {
 		r.Count("live_outage_submissions_refused", int64(da.SubmitCalls()-calls0))
 		h0 := height()
 		callsHeal := da.SubmitCalls()
+		lat := 0
+		if len(c.LatencyMs) > 0 {
+			lat = c.LatencyMs[cyc%len(c.LatencyMs)]
+		}
+		if lat > 0 {
+			r.Hit("live-busy-da-after-outage")
+		}
+		da.ConfirmLatency.Store(int64(time.Duration(lat) * time.Millisecond))
 		da.SetDefaultSubmit("accept")
 		resumed := false
 		healed := time.Now()
@@ -145,8 +163,16 @@ func runLive(r *vk.Run, c LiveCase) {
 		r.Hit("live-resumes")
 		if !resumed && len(viol) == 0 {
 			_, _, ph, pd := n.M.VerifWatermarks()
-			viol = append(viol, fmt.Sprintf("cycle %d: the DA layer accepts again, %d production attempts were made and the height went only from %d to %d (limit %d; the node counts %d pending headers, %d pending data items; the DA double received %d submissions since the outage ended)",
-				cyc, attempts, h0, height(), c.Limit, ph, pd, da.SubmitCalls()-callsHeal))
+			how := "the DA layer accepts again"
+			if lat > 0 {
+				how = fmt.Sprintf("the DA layer accepts again (it confirms every submission %d ms after it was sent; configured DA block time 1 ms)", lat)
+			}
+			gone := ""
+			if loops.Exited("headerSubmit") || loops.Exited("dataSubmit") {
+				gone = fmt.Sprintf("; submission loops that have returned although the node was not stopped: header=%v data=%v", loops.Exited("headerSubmit"), loops.Exited("dataSubmit"))
+			}
+			viol = append(viol, fmt.Sprintf("cycle %d (outage answers: %s): %s, %d production attempts were made in %v and the height went only from %d to %d (limit %d; the node counts %d pending headers, %d pending data items; the DA double received %d submissions since the outage ended%s)",
+				cyc, c.Fault, how, attempts, time.Since(healed).Round(time.Millisecond), h0, height(), c.Limit, ph, pd, da.SubmitCalls()-callsHeal, gone))
 		}
 	}
 	if len(viol) > 0 {
@@ -178,6 +204,35 @@ func genLive(rng *rand.Rand, id int, quick bool) LiveCase {
 				c.OutageCalls[i] = 62 + rng.Intn(8)
 			}
 		}
+	}
+	return c
+}
+
+// genLiveBusy: live runs against a DA layer that (a) is busy after an outage - every submission is accepted but
+// confirmed only 5-20 configured DA block times after it was sent, with a client that honours the context it is given -
+// and/or (b) answers the submissions of an outage with a cancellation (context.Canceled, or the DA interface's
+// cancellation sentinel) while the node itself has not been asked to stop.
+func genLiveBusy(rng *rand.Rand, id int) LiveCase {
+	patterns := []string{"e", "x", "ex", "xe", "xeee", "eex"}
+	c := LiveCase{ID: id, Limit: []uint64{1, 2, 3, 5}[rng.Intn(4)], Pattern: patterns[rng.Intn(len(patterns))],
+		Yield: rng.Intn(3) != 0, Tight: []int{0, 50, 400}[rng.Intn(3)], Cycles: 3 + rng.Intn(6)}
+	lat := func() int { return 5 + rng.Intn(16) }
+	switch id % 3 {
+	case 0:
+		// busy DA layer after ordinary outages
+		c.Fault = []string{"error", "timeout", "toobig"}[rng.Intn(3)]
+		c.LatencyMs = []int{lat(), 0, lat()}
+	case 1:
+		// cancellations coming from the DA side
+		c.Fault = []string{"cancelled", "cancelledda"}[rng.Intn(2)]
+	default:
+		// both
+		c.Fault = []string{"cancelled", "cancelledda"}[rng.Intn(2)]
+		c.LatencyMs = []int{0, lat()}
+	}
+	c.OutageCalls = []int{1 + rng.Intn(4), 2 + rng.Intn(10), 1}
+	if rng.Intn(4) == 0 {
+		c.OutageCalls = []int{40 + rng.Intn(40)}
 	}
 	return c
 }
